@@ -15,6 +15,7 @@
  */
 #pragma once
 
+#include <unifex/continuations.hpp>
 #include <unifex/get_stop_token.hpp>
 #include <unifex/manual_lifetime.hpp>
 #include <unifex/receiver_concepts.hpp>
